@@ -17,7 +17,7 @@ from concurrent.futures import ThreadPoolExecutor
 VERIF = os.path.dirname(os.path.dirname(os.path.abspath(__file__)))
 REPO = os.environ.get("VERIF_REPO", "/repo")
 BUILD = os.path.join(VERIF, "build")
-HARNESS = os.path.join(VERIF, "engine", "harness")
+HARNESS = os.environ.get("VERIF_HARNESS") or os.path.join(VERIF, "engine", "harness")
 JOBS = int(os.environ.get("VERIF_JOBS", "16"))
 
 COMMON = ["-std=gnu99", "-I%s/src/include" % REPO, "-I%s/src/conf" % REPO,
